@@ -10,6 +10,24 @@ ORACLE = {"ORDER_FAIL": ("C13", "reply-order"), "WIRE_FAIL": ("C03", "wire-forma
           "QUEUE_FAIL": ("C06", "event-queue")}
 
 
+CLIENT_PROPS = {"C03", "C04", "C05", "C11", "C18"}
+
+
+def run_client(res, pid, bdir, lib):
+    """the client role: real cs104_connection.c with its thread as a fiber vs Iec.Cli104"""
+    ops, impl, model = (os.path.join(bdir, x) for x in ("cops.txt", "cimpl.txt", "cmodel.txt"))
+    excl = {"iec60870/cs104/cs104_connection.c"} | set(REAL_HAL)
+    exe = build_harness("cli104", ["cli104.c", "simhal.c"], lib, bdir, exclude=excl,
+                        extra_flags=["-I" + os.path.join(SRC, "iec60870/cs104")])
+    rc, out = sh([exe, ops, impl, res.tier], env={"VERIF_SEED": str(seed())}, timeout=3000)
+    if rc != 0:
+        last = open(ops).read().splitlines()[-1:] if os.path.exists(ops) else []
+        return 0, [{"op": (last[0] if last else ""), "impl": "sanitizer abort at %s" % (asan_site(out),), "model": ""}], out, ops, True
+    run_model(ops, model)
+    n, diffs = first_diff(ops, impl, model)
+    return n, diffs, out, ops, False
+
+
 def run(res, pid, extra_targets=()):
     bdir = os.path.join(BUILD, pid)
     proof_ok, plog = proof_stage(res, pid, extra_targets)
@@ -36,6 +54,23 @@ def run(res, pid, extra_targets=()):
         tie_ok = False
         res.notes.append(str(e)[-800:])
         diffs = [{"op": "<build>", "impl": str(e)[-400:], "model": ""}]
+    cli_out, cli_ops = "", None
+    if pid in CLIENT_PROPS and crash is None:
+        try:
+            cn, cdiffs, cli_out, cli_ops, ccrash = run_client(res, pid, bdir, lib)
+            res.cov["client_operations_compared"] = cn
+            ch = [l for l in cli_out.splitlines() if l.startswith("HISTO")]
+            res.cov["client_histogram"] = ch[-1] if ch else ""
+            if cdiffs:
+                tie_ok = False
+                diffs = diffs + [dict(d, role="client") for d in cdiffs]
+            if ccrash:
+                crash = {"last_operation": cdiffs[0]["op"], "sanitizer_site": asan_site(cli_out), "report": cli_out[-1500:], "role": "client"}
+            n_ops += cn
+            out = out + "\n" + "\n".join(l for l in cli_out.splitlines() if "_FAIL " in l)
+        except BuildError as e:
+            tie_ok = False
+            diffs.append({"op": "<client build>", "impl": str(e)[-400:], "model": ""})
     res.cov["traces_validated_against_impl"] = n_ops
     res.cov["evaluations"] = n_ops
     if n_ops:
